@@ -1205,6 +1205,9 @@ fn ix_history(w: &W) -> Verdict {
     } else {
         10
     };
+    // thousands of operations only on small files: on a file of hundreds of kilobytes read in
+    // one-byte chunks they would be 10^9 I/O events in one run
+    let max_steps = if max_steps > 300 && f.bytes.len() > 20_000 { 300 } else { max_steps };
     run_history(w, &f, max_steps, faults, true)
 }
 
